@@ -33,24 +33,34 @@ HistMsgsT  ==
   {<<GM(1, s1, z1), GM(2, s2, z2)>> : s1 \in {0, 7}, s2 \in {0, 21}, z1 \in BOOLEAN, z2 \in BOOLEAN}
   \cup {<<GM(1, s, TRUE)>> : s \in {0, 1, 40}}
 
+\* ctl: "any buffer sizes" on the receiving side - read buffers below, at and above the largest control payload
+\* (0: the default), crossed with pings of 0..125 octets before, between and inside the messages
+CtlMsgs    == {<<GM(1, 9, FALSE), GM(2, 21, z)>> : z \in BOOLEAN}
+CtlFragLens == {3}
+CtlPingLens == {0, 17, 101, 125}
+CtlReadBufs == {0, 1, 16, 64, 100, 124, 125, 126, 4096}
+
 \* ---- the bounds per family of lists (quick / thorough)
-QuickLists    == WideMsgs \cup NarrowMsgs \cup HistMsgs \cup Hist3Msgs
-ThoroughLists == WideMsgsT \cup NarrowMsgs \cup HistMsgsT \cup Hist3MsgsT
+QuickLists    == WideMsgs \cup NarrowMsgs \cup HistMsgs \cup Hist3Msgs \cup CtlMsgs
+ThoroughLists == WideMsgsT \cup NarrowMsgs \cup HistMsgsT \cup Hist3MsgsT \cup CtlMsgs
 IsWide(ms)   == ms \in WideMsgsT
 IsNarrow(ms) == ms \in NarrowMsgs
 IsHist3(ms)  == Len(ms) = 3
-GFragLensOf(ms) == IF IsWide(ms) THEN WideLens ELSE IF IsNarrow(ms) THEN NarrowLens ELSE HistLens
+IsCtl(ms)    == ms \in CtlMsgs
+GFragLensOf(ms) == IF IsWide(ms) THEN WideLens ELSE IF IsNarrow(ms) THEN NarrowLens ELSE IF IsCtl(ms) THEN CtlFragLens ELSE HistLens
 QMaxFragsOf(ms)  == IF IsWide(ms) THEN 3 ELSE IF IsNarrow(ms) THEN 4 ELSE 2
-QCtlLensOf(ms)   == {5}
+QCtlLensOf(ms)   == IF IsCtl(ms) THEN {0, 17, 125} ELSE {5}
 QMaxCtlOf(ms)    == IF IsWide(ms) \/ IsNarrow(ms) \/ IsHist3(ms) THEN 0 ELSE 1
-QReadSizesOf(ms) == IF IsWide(ms) \/ IsNarrow(ms) THEN {0, 1, 5} ELSE IF IsHist3(ms) THEN {0} ELSE {0, 3}
+QReadSizesOf(ms) == IF IsWide(ms) \/ IsNarrow(ms) THEN {0, 1, 5} ELSE IF IsHist3(ms) \/ IsCtl(ms) THEN {0} ELSE {0, 3}
+QReadBufsOf(ms)  == IF IsCtl(ms) THEN CtlReadBufs ELSE {-1}
 TMaxFragsOf(ms)  == IF IsWide(ms) THEN (IF ms[1].size > 70 THEN 3 ELSE 4) ELSE IF IsNarrow(ms) THEN 5 ELSE 2
-TCtlLensOf(ms)   == {0, 125}
+TCtlLensOf(ms)   == IF IsCtl(ms) THEN CtlPingLens \cup {1, 16, 124} ELSE {0, 125}
 TMaxCtlOf(ms)    == IF IsWide(ms) \/ IsNarrow(ms) \/ IsHist3(ms) THEN 0 ELSE 1
-TReadSizesOf(ms) == IF IsWide(ms) THEN {0, 1, 5, 19} ELSE IF IsNarrow(ms) THEN {0, 1, 3, 5} ELSE IF IsHist3(ms) THEN {0, 1, 3} ELSE {0, 3}
+TReadSizesOf(ms) == IF IsWide(ms) THEN {0, 1, 5, 19} ELSE IF IsNarrow(ms) THEN {0, 1, 3, 5} ELSE IF IsHist3(ms) THEN {0, 1, 3} ELSE IF IsCtl(ms) THEN {0, 7} ELSE {0, 3}
+TReadBufsOf(ms)  == IF IsCtl(ms) THEN CtlReadBufs ELSE {-1}
 
 Case ==
-  [fam    |-> "foreign", role |-> role, rd |-> rd,
+  [fam    |-> "foreign", role |-> role, rd |-> rd, rbs |-> rbs,
    msgs   |-> [n \in 1..Len(msgs) |-> [t |-> msgs[n].t, size |-> msgs[n].size, z |-> msgs[n].z]],
    frames |-> [n \in 1..Len(wire) |-> [op |-> wire[n].op, fin |-> wire[n].fin, r1 |-> wire[n].r1, len |-> wire[n].len]],
    exp    |-> [n \in 1..Len(out) |-> [t |-> out[n].t, size |-> Len(out[n].p), same |-> (n <= Len(msgs) /\ out[n] = Expected(n))]],
